@@ -22,7 +22,7 @@ only after the status was found optimal); pandas (`pandas.Series as ordered mapp
 v sets / overwrites one entry, s[s > 0] is a new Series holding exactly the entries of s whose value is > 0, with their values.
 
 Mutation trials (tools/mutate_and_run.sh cobra/medium/minimal_medium.py ... contracts.c18_asmedium --hooks HOOKS _as_medium):
-   see the end of this docstring in c18_minmedium.py (all trials of the two modules are listed there).
+   listed under MUTANTS in the docstring of c18_minmedium.py (all trials of the three new C18 modules are listed there).
 """
 import ast
 import z3
